@@ -51,7 +51,7 @@ def obs_cfg(navdir, pb):
 
 
 def _seqkind(i, L):
-    k = ('gen', 'genfn', 'lazy', 'sized', 'gennone', 'maplike', 'lazy')[i % 7]
+    k = ('gen', 'genfn', 'lazy', 'sized', 'gennone', 'maplike', 'lazy', 'hinted', 'gen')[i % 9]
     if L < 0 and k in ('lazy', 'sized', 'maplike'):
         k = 'gen' if i % 2 else 'gennone'
     return k
